@@ -1664,13 +1664,16 @@ class TrajectoryStore:
                 )
                 data[name] = val
                 if Dimension.POINT in field.dimensions and npoints is None:
+                    # Unset optional fields (None) and species-indexed fields
+                    # without any species do not tell us the number of points.
                     if Dimension.SPECIES in field.dimensions:
                         # Get number of points from arbitrary entry in the
                         # SpeciesValues dictionary here.
-                        npoints = len(next(iter(data[name].values())))
-                    else:
+                        if val is not None and len(val) > 0:
+                            npoints = len(next(iter(val.values())))
+                    elif val is not None:
                         # Data should be a simple Numpy array here.
-                        npoints = len(data[name])
+                        npoints = len(val)
 
         # Construct the return trajectory.
         assert npoints is not None
